@@ -7,7 +7,25 @@ import tempfile
 
 import rqlib
 
-SCRATCH = os.path.join(rqlib.CACHE, "scratch")
+# one scratch directory per check process: cleanup_all() of one check must not pull the workspaces from under
+# another check that runs at the same time
+SCRATCH = os.path.join(rqlib.CACHE, "scratch", "p%d" % os.getpid())
+
+
+def _sweep_dead():
+    """scratch directories of check processes that are gone"""
+    root = os.path.dirname(SCRATCH)
+    try:
+        for n in os.listdir(root):
+            if n.startswith("p") and n[1:].isdigit() and not os.path.exists("/proc/" + n[1:]):
+                shutil.rmtree(os.path.join(root, n), ignore_errors=True)
+            elif not (n.startswith("p") and n[1:].isdigit()):
+                shutil.rmtree(os.path.join(root, n), ignore_errors=True)      # layout of earlier versions
+    except OSError:
+        pass
+
+
+_sweep_dead()
 
 
 def fresh_dir(prefix="ws"):
